@@ -87,6 +87,7 @@ func TestTable(t *testing.T) {
 		{"processing-instruction('x')", true, true}, {"processing-instruction(1)", false, false}, {"//", false, false}, {"a//", false, false}, {"/ /", false, false},
 		{"#obj/#arr", true, true}, {"é", true, true}, {"a b", false, false}, {"a  ", false, true}, {"!", false, false}, {"a!=b", true, true}, {"a ! = b", false, false},
 		{"..a", false, false}, {".. /a", true, true}, {".a", false, false}, {"1.5.2", false, false}, {"1..2", false, false}, {"$v[1]/a", true, true}, {"'a'/b", true, true},
+		{"/*/*/*/*/*/*/*/*/*/*/*0", false, true}, {"/*/*/*/*/*/*/*/*/*/*/*/*/*", true, true}, {"/*/*/*/*/*/*/*/*/*/*/*/*/* *", false, true},
 	}
 	for _, c := range cases {
 		_, _, errS := Parse(c.text, Strict)
